@@ -118,7 +118,8 @@ impl BranchRule {
             return None;
         }
 
-        let prefix = &self.pattern[..self.pattern.len() - 2];
+        // "release/*" covers the names under "release/" only (the slash belongs to the prefix)
+        let prefix = &self.pattern[..self.pattern.len() - 1];
         if !branch_name.starts_with(prefix) || branch_name.len() == prefix.len() {
             return None;
         }
@@ -232,7 +233,8 @@ impl BranchRule {
             !branch.is_empty()
         } else if self.pattern.ends_with("/*") {
             // Regular wildcard pattern: "release/*" matches branches
-            let prefix = &self.pattern[..self.pattern.len() - 2];
+            // "release/*" matches the names under "release/" only, not "releases" or "release-7"
+            let prefix = &self.pattern[..self.pattern.len() - 1];
             branch.starts_with(prefix) && branch.len() > prefix.len()
         } else {
             // Exact pattern match: "develop" matches only "develop"
